@@ -256,12 +256,12 @@ Qed.
    grids, the ray is not horizontal (cos theta > 0) and the ice temperature is in range *)
 Definition basic_nodes (p : Path) : list R :=
   if Path_direct p then
-    linspace_closed (Path_z0 p) (Path_z1 p) (Rtrunc (Rabs (Path_z1 p - Path_z0 p) / Path_dz p) + 1)%Z
+    linspace_closed (Path_z0 p) (Path_z1 p) (_n_intervals (Rabs (Path_z1 p - Path_z0 p)) (Path_dz p) + 1)%Z
   else
     linspace_closed (Path_z0 p) (Path_z_turn p - Path_z_turn_proximity p)
-       (Rtrunc (Rabs (Path_z_turn p - Path_z_turn_proximity p - Path_z0 p) / Path_dz p) + 1)%Z
+       (_n_intervals (Path_z_turn p - Path_z_turn_proximity p - Path_z0 p) (Path_dz p) + 1)%Z
     ++ linspace_closed (Path_z_turn p - Path_z_turn_proximity p) (Path_z1 p)
-       (Rtrunc (Rabs (Path_z_turn p - Path_z_turn_proximity p - Path_z1 p) / Path_dz p) + 1)%Z.
+       (_n_intervals (Path_z_turn p - Path_z_turn_proximity p - Path_z1 p) (Path_dz p) + 1)%Z.
 
 Lemma basic_attenuation_antitone p f1 f2 :
   0 < Rabs f1 <= Rabs f2 ->
